@@ -160,6 +160,106 @@ pub struct Totals {
     pub fail_count: u64,
 }
 
+/// The same jobs with the optimiser brought to its configuration through setter calls on a used
+/// builder instead of a fresh one (every `every`-th job whose configuration setters can reach).
+pub fn with_builder_histories(jobs: Vec<Job>, every: usize) -> Vec<Job> {
+    let mut out = vec![];
+    for (i, j) in jobs.into_iter().enumerate() {
+        if i % every == 0 && j.cfg.reachable_by_setters() {
+            for h in 1..=2u32 {
+                let mut v = j.clone();
+                v.cfg = v.cfg.with_history(h);
+                v.product_depth = 0;
+                v.ladder_depth = 0;
+                out.push(v);
+            }
+        }
+        out.push(j);
+    }
+    out
+}
+
+/// Every order of the seven setter calls on a used builder (5040 per configuration): the run under
+/// the job's baseline script and its first single-deviation scripts is compared with the run of
+/// the optimiser the argument parser builds for the same values; an order that behaves
+/// differently is put through the complete job and judged like any other configuration.
+pub fn setter_orders(run: &mut Run, jobs: &[Job], judge: &Judge) {
+    calibrate();
+    let prev_hook = std::panic::take_hook();
+    std::panic::set_hook(Box::new(|_| {}));
+    let usable: Vec<&Job> = jobs.iter().filter(|j| j.cfg.reachable_by_setters() && j.cfg.history == 0).collect();
+    let outs = par_map(&usable, |_, j| {
+        let alpha = Alphabet { default_q: j.default_q, ..Alphabet::standard(j.spec.n()).with_pattern(j.pattern.clone()) };
+        let mut scripts: Vec<Vec<StepScript>> = vec![];
+        for_each_script(&alpha, j.cfg.steps as usize, 1, |s, _| {
+            if scripts.len() < 6 {
+                scripts.push(s.to_vec());
+            }
+        });
+        let base: Vec<u64> = scripts.iter().map(|s| obs_fingerprint(&run_script(&j.cfg, &j.spec, s))).collect();
+        let mut differing = 0u64;
+        let mut runs = 0u64;
+        let mut fails: Vec<(Option<&'static str>, String, Value)> = vec![];
+        let mut fail_count = 0u64;
+        for k in 0..SETTER_ORDERS {
+            let cfg = j.cfg.with_history(SETTER_ORDERS_BASE + k as u32);
+            let mut differs = false;
+            for (s, b) in scripts.iter().zip(base.iter()) {
+                runs += 1;
+                if obs_fingerprint(&run_script(&cfg, &j.spec, s)) != *b {
+                    differs = true;
+                    break;
+                }
+            }
+            if differs {
+                differing += 1;
+                if fails.len() < 2 {
+                    let mut v = (*j).clone();
+                    v.cfg = cfg;
+                    v.product_depth = 0;
+                    v.ladder_depth = 0;
+                    let o = run_job(&v, judge);
+                    runs += o.runs;
+                    fail_count += o.fail_count;
+                    let order: Vec<&str> = setter_order(k).iter().map(|&i| SETTER_NAMES[i]).collect();
+                    for (key, what, case) in o.fails {
+                        if fails.len() < 2 {
+                            fails.push((key, format!("builder setters called in the order {:?}: {}", order, what), case));
+                        }
+                    }
+                }
+            }
+        }
+        (runs, differing, fail_count, fails)
+    });
+    std::panic::set_hook(prev_hook);
+    let (mut runs, mut differing, mut fc) = (0u64, 0u64, 0u64);
+    for (r, d, f, fails) in outs {
+        runs += r;
+        differing += d;
+        fc += f;
+        for (k, w, c) in fails {
+            run.fail(k, &w, c);
+        }
+    }
+    run.set("setter_order_configurations", usable.len() as u64);
+    run.set("setter_orders_per_configuration", SETTER_ORDERS as u64);
+    run.set("setter_order_runs", runs);
+    run.set("setter_orders_behaving_unlike_the_parsed_configuration", differing);
+    run.set("setter_order_failing_runs", fc);
+}
+
+/// An even selection of the jobs whose configuration setters can reach, preferring those with
+/// several temperature loops.
+pub fn pick_for_setter_orders(jobs: &[Job], n: usize) -> Vec<Job> {
+    let mut pool: Vec<&Job> = jobs.iter().filter(|j| j.cfg.reachable_by_setters() && j.cfg.history == 0 && j.cfg.steps > j.cfg.inner).collect();
+    if pool.is_empty() {
+        pool = jobs.iter().filter(|j| j.cfg.reachable_by_setters() && j.cfg.history == 0).collect();
+    }
+    let stride = (pool.len() / n.max(1)).max(1);
+    pool.into_iter().step_by(stride).take(n).cloned().collect()
+}
+
 pub fn run_jobs(run: &mut Run, jobs: &[Job], judge: &Judge) -> Totals {
     calibrate();
     let prev_hook = std::panic::take_hook();
@@ -229,6 +329,10 @@ pub fn c06(tier: Tier) -> ! {
     for n in 1..=3usize {
         for &(steps, inner) in steps_grid(tier).iter() {
             for &(kt, fin, ratio) in [(0., None, Some(0.)), (0.1, Some(0.001), None), (1e300, None, Some(0.)), (1., None, Some(0.5))].iter() {
+              for &conv in [None, Some(1e-3), Some(f64::INFINITY)].iter() {
+                if conv.is_some() && !(inner <= 2 && (kt == 0. || kt == 1e300)) {
+                    continue;
+                }
                 for &ms in [1., 0.5, 0.01].iter() {
                     for (pi, pat) in patterns().into_iter().enumerate() {
                         if tier == Tier::Quick && (pi + n + steps as usize) % 2 == 1 {
@@ -236,7 +340,7 @@ pub fn c06(tier: Tier) -> ! {
                         }
                         for spec in [ProbeSpec::standard(n), ProbeSpec::interior(n), ProbeSpec::standard(n).raw(), ProbeSpec::outside(n)].iter() {
                             jobs.push(Job {
-                                cfg: Cfg { steps, inner, kt_start: kt, kt_finish: fin, kt_ratio: ratio, max_step: ms, convergence: None },
+                                cfg: Cfg { steps: if conv.is_some() { steps.max(8) } else { steps }, inner, kt_start: kt, kt_finish: fin, kt_ratio: ratio, max_step: ms, convergence: conv, history: 0 },
                                 spec: spec.clone(),
                                 pattern: pat.clone(),
                                 default_q: if ms >= 0.5 { 0. } else { 0.75 },
@@ -247,9 +351,12 @@ pub fn c06(tier: Tier) -> ! {
                         }
                     }
                 }
+              }
             }
         }
     }
+    let plain_jobs = jobs.clone();
+    let jobs = with_builder_histories(jobs, 7);
     let judge = |_cfg: &Cfg, _spec: &ProbeSpec, _s: &[StepScript], obs: &Obs, an: &Analysis| -> Vec<(Option<&'static str>, String)> {
         let mut v = vec![];
         if obs.panic.is_some() {
@@ -260,9 +367,23 @@ pub fn c06(tier: Tier) -> ! {
         } else if an.final_mismatch {
             v.push((None, "the returned state is neither the last accepted proposal nor the input: not the state of any consistent accept/reject history".to_string()));
         }
+        // a run that leaves through the convergence exit hands back what the same run hands back
+        // when it simply has no steps left at that point (a schedule given by a ratio or by a zero
+        // start does not depend on the step count)
+        let m = obs.proposals.len();
+        let ie = _cfg.inner_eff() as usize;
+        if v.is_empty() && _cfg.convergence.is_some() && m > 0 && (m as u64) < _cfg.steps && m % ie == 0 && (_cfg.kt_ratio.is_some() || _cfg.kt_start == 0.) && _s.len() >= m {
+            let plain = Cfg { steps: m as u64, convergence: None, ..(*_cfg).clone() };
+            let other = run_script(&plain, _spec, &_s[..m]);
+            let bits = |p: &Option<Vec<f64>>| p.as_ref().map(|x| x.iter().map(|f| f.to_bits()).collect::<Vec<u64>>());
+            if other.panic.is_none() && other.proposals.len() == m && bits(&other.final_params) != bits(&obs.final_params) {
+                v.push((None, format!("the run left through the convergence exit after {} proposals and handed back {:?} (score {:?}); the same {} proposals as a complete run hand back {:?} (score {:?})", m, obs.final_params, obs.final_score, m, other.final_params, other.final_score)));
+            }
+        }
         v
     };
     let t = run_jobs(&mut run, &jobs, &judge);
+    setter_orders(&mut run, &pick_for_setter_orders(&plain_jobs, tier.pick(8, 32)), &judge);
     // real hard and LJ states under the crate's own generator (supplementary: the seeds are a sample)
     let rr = crate::rsx::real_runs(tier);
     for (w, c) in rr.c06 {
@@ -363,7 +484,7 @@ pub fn c07(tier: Tier) -> ! {
                         continue;
                     }
                     jobs.push(Job {
-                        cfg: Cfg { steps, inner, kt_start: kt, kt_finish: fin, kt_ratio: ratio, max_step: 0.05, convergence: None },
+                        cfg: Cfg { steps, inner, kt_start: kt, kt_finish: fin, kt_ratio: ratio, max_step: 0.05, convergence: None, history: 0 },
                         spec: ProbeSpec::interior(n),
                         pattern: pat,
                         default_q: 0.75,
@@ -384,6 +505,8 @@ pub fn c07(tier: Tier) -> ! {
             }
         }
     }
+    let plain_jobs = jobs.clone();
+    let jobs = with_builder_histories(jobs, 5);
     let judge = |cfg: &Cfg, _spec: &ProbeSpec, _s: &[StepScript], obs: &Obs, an: &Analysis| -> Vec<(Option<&'static str>, String)> {
         let mut v = vec![];
         if violated_common(obs, an) {
@@ -401,6 +524,7 @@ pub fn c07(tier: Tier) -> ! {
         v
     };
     let t = run_jobs(&mut run, &jobs, &judge);
+    setter_orders(&mut run, &pick_for_setter_orders(&plain_jobs, tier.pick(8, 32)), &judge);
     // real states, real generator: every step's decision against the rule with the draw it used
     let rr = crate::rsx::real_runs(tier);
     for (w, c) in rr.c07 {
@@ -430,11 +554,36 @@ pub fn c07(tier: Tier) -> ! {
         }
     }
     calibrate();
-    let res = par_map(&meas, |_, &(d, kt, steps, inner, t, n)| {
-        let cfg = Cfg { steps, inner, kt_start: kt, kt_finish: None, kt_ratio: Some(0.), max_step: 0.01, convergence: None };
+    let mut res = par_map(&meas, |_, &(d, kt, steps, inner, t, n)| {
+        let cfg = Cfg { steps, inner, kt_start: kt, kt_finish: None, kt_ratio: Some(0.), max_step: 0.01, convergence: None, history: 0 };
         let spec = ProbeSpec::interior(n);
         (accept_probability(&cfg, &spec, t, d), cfg, spec)
     });
+    // later loops of a cooling run, with and without a convergence threshold that the earlier
+    // loops stay under (fewer than six in a row, the run goes on): the temperature of loop j is
+    // kt_start (1 - kt_ratio)^j
+    let mut cooled = vec![];
+    for &d in [0.05, 0.5, 2.].iter() {
+        for &kt in [0.1, 1.].iter() {
+            for &ratio in [0.5, 0.1].iter() {
+                for &conv in [None, Some(1e6)].iter() {
+                    for &t in [3usize, 5, 6].iter() {
+                        cooled.push((d, kt, ratio, conv, t));
+                    }
+                }
+            }
+        }
+    }
+    let res2 = par_map(&cooled, |_, &(d, kt, ratio, conv, t)| {
+        let cfg = Cfg { steps: 6, inner: 2, kt_start: kt, kt_finish: None, kt_ratio: Some(ratio), max_step: 0.01, convergence: conv, history: 0 };
+        let spec = ProbeSpec::interior(2);
+        (accept_probability(&cfg, &spec, t, d), cfg, spec)
+    });
+    for (i, r) in res2.into_iter().enumerate() {
+        let (d, kt, ratio, _, t) = cooled[i];
+        meas.push((d, kt * (1f64 - ratio).powi(((t - 1) / 2) as i32), 6, 2, t, 2));
+        res.push(r);
+    }
     let mut bisections = 0u64;
     let mut replays = 0u64;
     let mut interior = 0u64;
@@ -495,7 +644,7 @@ pub fn c05_jobs(tier: Tier) -> Vec<Job> {
                             }
                             let n = 1 + (k % 3);
                             jobs.push(Job {
-                                cfg: Cfg { steps, inner, kt_start: 0., kt_finish: fin, kt_ratio: ratio, max_step: ms, convergence: conv },
+                                cfg: Cfg { steps, inner, kt_start: 0., kt_finish: fin, kt_ratio: ratio, max_step: ms, convergence: conv, history: 0 },
                                 spec: if k % 2 == 0 { ProbeSpec::interior(n) } else { ProbeSpec::standard(n) },
                                 pattern: pat,
                                 default_q: 0.75,
@@ -521,7 +670,7 @@ pub fn c05_jobs(tier: Tier) -> Vec<Job> {
 
 pub fn c05(tier: Tier) -> ! {
     let mut run = Run::new("C05", tier, "model_checking");
-    let jobs = c05_jobs(tier);
+    let jobs = with_builder_histories(c05_jobs(tier), 3);
     let judge = |_cfg: &Cfg, spec: &ProbeSpec, _s: &[StepScript], obs: &Obs, an: &Analysis| -> Vec<(Option<&'static str>, String)> {
         let mut v = vec![];
         if violated_common(obs, an) {
@@ -539,6 +688,7 @@ pub fn c05(tier: Tier) -> ! {
         v
     };
     let t = run_jobs(&mut run, &jobs, &judge);
+    setter_orders(&mut run, &pick_for_setter_orders(&c05_jobs(tier), tier.pick(8, 32)), &judge);
     // real hard and LJ states: every stage of a chained-stage search re-run as a pure hill climb
     let sweep_cfg = crate::rsx::Sweep { depth: tier.pick(2, 4), cap: tier.pick(400, 20_000), dense_steps: 300, shapes: crate::rsx::start_shapes(tier) };
     let (rf, rstarts) = crate::rsx::sweep(&sweep_cfg, &crate::rsx::Wants { c01: false, c04: false, c05: true, c08: false });
@@ -563,7 +713,7 @@ pub fn c05(tier: Tier) -> ! {
     run.set("traces_validated_against_impl", tv);
     run.set("max_deviations", tier.pick(1, 2) as u64);
     run.set("exhaustive", true);
-    run.set("explanation", "Every optimiser configuration of the grid with kt_start = 0 (kt_finish x kt_ratio x steps/inner_steps x max_step_size x convergence) is run on probe states with 1-3 parameters under every script with at most max_deviations departures from 4 baseline answer patterns (and a full product to depth 3 on the multi-loop configurations). In every consistent accept/reject history the accepted scores must be non-decreasing and the returned score at least the input score. Real hard and LJ crystal states: every state of a chained-stage breadth-first search (engine rsx) is put through each of the 28 scripted one- and two-step stages at kt_start = 0 and the returned score compared with the input score.");
+    run.set("explanation", "Every optimiser configuration of the grid with kt_start = 0 (kt_finish x kt_ratio x steps/inner_steps x max_step_size x convergence) is run on probe states with 1-3 parameters under every script with at most max_deviations departures from 4 baseline answer patterns (and a full product to depth 3 on the multi-loop configurations). In every consistent accept/reject history the accepted scores must be non-decreasing and the returned score at least the input score. Real hard and LJ crystal states: every state of a chained-stage breadth-first search (engine rsx) is put through each of the 35 scripted one- and two-step stages at kt_start = 0 and the returned score compared with the input score.");
     run.assume("probe landscape is consistent (same parameters, same score)");
     run.require(t.accepts > 0 && t.rejects > 0, "both accepted and rejected steps must occur");
     run.finish()
@@ -583,9 +733,11 @@ pub fn c19(tier: Tier) -> ! {
                     for pat in patterns().into_iter() {
                         for &q in [0., 0.75].iter() {
                             jobs.push(Job {
-                                cfg: Cfg { steps, inner, kt_start: kt, kt_finish: fin, kt_ratio: ratio, max_step: ms, convergence: None },
-                                // large steps only bite next to a bound, small ones must not be masked by one
-                                spec: if ms > 1. { ProbeSpec::standard(n) } else { ProbeSpec::interior(n) },
+                                cfg: Cfg { steps, inner, kt_start: kt, kt_finish: fin, kt_ratio: ratio, max_step: ms, convergence: None, history: 0 },
+                                // interior starts so that clamping cannot mask a move; starts on the
+                                // bounds (where a window cannot be centred) for the large steps and for
+                                // every other displacement
+                                spec: if ms > 1. || (q == 0.75 && steps % 2 == 0) { ProbeSpec::standard(n) } else { ProbeSpec::interior(n) },
                                 pattern: pat.clone(),
                                 default_q: q,
                                 max_dev: tier.pick(1, 2),
@@ -598,6 +750,8 @@ pub fn c19(tier: Tier) -> ! {
             }
         }
     }
+    let plain_jobs = jobs.clone();
+    let jobs = with_builder_histories(jobs, 9);
     let judge = |cfg: &Cfg, spec: &ProbeSpec, _s: &[StepScript], obs: &Obs, an: &Analysis| -> Vec<(Option<&'static str>, String)> {
         let mut v = vec![];
         if obs.panic.is_some() {
@@ -617,6 +771,7 @@ pub fn c19(tier: Tier) -> ! {
         v
     };
     let t = run_jobs(&mut run, &jobs, &judge);
+    setter_orders(&mut run, &pick_for_setter_orders(&plain_jobs, tier.pick(8, 32)), &judge);
     run.set("max_deviations", tier.pick(1, 2) as u64);
     run.set("exhaustive", true);
     run.set("explanation", "Rejection histories from 0 % to 100 % per loop (4 baseline patterns and every departure of at most max_deviations fields from them), 1..12 inner loops, 7 maximum step sizes (1e-6 .. 1.5), constant, cooling and heating schedules, 3 parameter ranges, extreme and moderate displacement draws, interior start values so that clamping cannot mask a move. Every proposal must differ from a state the run can be in by one parameter and by at most max_step_size * range / 2.");
@@ -705,8 +860,19 @@ pub fn c18_configs(tier: Tier) -> Vec<Cfg> {
         // a ratio together with a finishing temperature it undercuts after two loops: the ratio wins
         schedules.push((Some(if start == 0. { 0.3 } else { start * 0.3 }), Some(0.5)));
         for (fin, ratio) in schedules {
-            for &(steps, inner) in shapes.iter() {
-                v.push(Cfg { steps, inner, kt_start: start, kt_finish: fin, kt_ratio: ratio, max_step: 0.01, convergence: None });
+            for &(steps, inner) in shapes.iter().chain([(6u64, 1000u64)].iter()) {
+                let c = Cfg { steps, inner, kt_start: start, kt_finish: fin, kt_ratio: ratio, max_step: 0.01, convergence: None, history: 0 };
+                // the same configuration reached through setter calls on a used builder
+                if c.reachable_by_setters() && (steps == 6 || steps == 12) {
+                    v.push(c.with_history(1));
+                    v.push(c.with_history(2));
+                }
+                // the schedule does not depend on a convergence threshold: loops that count as
+                // converged (fewer than six in a row, so the run goes on) cool like any other
+                if (steps, inner) == (6, 2) || (steps, inner) == (12, 4) || (steps, inner) == (4, 1) {
+                    v.push(Cfg { convergence: Some(1e6), ..c.clone() });
+                }
+                v.push(c);
             }
         }
     }
@@ -836,6 +1002,62 @@ pub fn c18_check_config_h(cfg: &Cfg, rejecting: bool) -> (Vec<Temp>, u64, Vec<St
     (temps, replays, fails)
 }
 
+/// Every order of the seven setter calls on a used builder, for a selection of schedules: runs
+/// down six staircases of worse proposals (steps of 0.02 .. 4 kt_start, acceptance draw 1/2) are
+/// compared with the runs of the optimiser the argument parser builds; the schedule of an order
+/// that decides differently is measured in full like any other configuration.
+fn c18_setter_orders(run: &mut Run, cfgs: &[Cfg]) {
+    let spec = ProbeSpec::interior(2);
+    let outs = par_map(cfgs, |_, cfg| {
+        let unit = if cfg.kt_start > 0. { cfg.kt_start } else { 1e-3 };
+        let scripts: Vec<Vec<StepScript>> = [0.02, 0.1, 0.35, 0.69, 1.5, 4.]
+            .iter()
+            .map(|m| (1..=cfg.steps as usize).map(|t| StepScript { index: (t - 1) % 2, q: 0.75, thr_k: thr_k_of(0.5), answer: Some(-(t as f64) * m * unit) }).collect())
+            .collect();
+        let base: Vec<u64> = scripts.iter().map(|s| obs_fingerprint(&run_script(cfg, &spec, s))).collect();
+        let mut differing = 0u64;
+        let mut runs = 0u64;
+        let mut fails: Vec<(String, Value)> = vec![];
+        for k in 0..SETTER_ORDERS {
+            let c = cfg.with_history(SETTER_ORDERS_BASE + k as u32);
+            let mut differs = false;
+            for (s, b) in scripts.iter().zip(base.iter()) {
+                runs += 1;
+                if obs_fingerprint(&run_script(&c, &spec, s)) != *b {
+                    differs = true;
+                    break;
+                }
+            }
+            if differs {
+                differing += 1;
+                if fails.len() < 2 {
+                    let (temps, n, f) = c18_check_config(&c);
+                    runs += n;
+                    let order: Vec<&str> = setter_order(k).iter().map(|&i| SETTER_NAMES[i]).collect();
+                    for what in f {
+                        if !what.starts_with("MACHINERY") && fails.len() < 2 {
+                            fails.push((format!("builder setters called in the order {:?}: {}", order, what), json!({"engine": "mcx-schedule", "cfg": c.json(), "measured": temps.iter().map(|t| format!("{:?}", t)).collect::<Vec<_>>()})));
+                        }
+                    }
+                }
+            }
+        }
+        (runs, differing, fails)
+    });
+    let (mut runs, mut differing) = (0u64, 0u64);
+    for (r, d, fails) in outs {
+        runs += r;
+        differing += d;
+        for (w, c) in fails {
+            run.fail(None, &w, c);
+        }
+    }
+    run.set("setter_order_configurations", cfgs.len() as u64);
+    run.set("setter_orders_per_configuration", SETTER_ORDERS as u64);
+    run.set("setter_order_runs", runs);
+    run.set("setter_orders_behaving_unlike_the_parsed_configuration", differing);
+}
+
 pub fn c18(tier: Tier) -> ! {
     let mut run = Run::new("C18", tier, "model_checking");
     calibrate();
@@ -843,6 +1065,10 @@ pub fn c18(tier: Tier) -> ! {
     let prev_hook = std::panic::take_hook();
     std::panic::set_hook(Box::new(|_| {}));
     let res = par_map(&cfgs, |_, c| c18_check_config(c));
+    let pool: Vec<Cfg> = cfgs.iter().filter(|c| c.history == 0 && c.reachable_by_setters() && c.steps > c.inner && c.inner > 0).cloned().collect();
+    let n_orders = tier.pick(8, 40);
+    let picked: Vec<Cfg> = pool.iter().step_by((pool.len() / n_orders).max(1)).take(n_orders).cloned().chain(cfgs.iter().filter(|c| c.history == 0 && c.reachable_by_setters() && c.inner == 1000 && c.kt_start > 0.).step_by(7).take(3).cloned()).collect();
+    c18_setter_orders(&mut run, &picked);
     std::panic::set_hook(prev_hook);
     let mut measured = 0u64;
     let mut replays = 0u64;
@@ -917,7 +1143,12 @@ pub fn c20_library(run: &mut Run, tier: Tier) -> LibC20 {
                             continue;
                         }
                         let _ = pi;
-                        jobs.push((Cfg { steps, inner, kt_start: kt, kt_finish: if k % 2 == 0 { Some(1e-3) } else { None }, kt_ratio: if k % 4 == 1 { Some(0.5) } else { None }, max_step: 0.01, convergence: conv }, pat.clone()));
+                        let c = Cfg { steps, inner, kt_start: kt, kt_finish: if k % 2 == 0 { Some(1e-3) } else { None }, kt_ratio: if k % 4 == 1 { Some(0.5) } else { None }, max_step: 0.01, convergence: conv, history: 0 };
+                        if c.reachable_by_setters() && k % 5 == 0 {
+                            jobs.push((c.with_history(1), pat.clone()));
+                            jobs.push((c.with_history(2), pat.clone()));
+                        }
+                        jobs.push((c, pat.clone()));
                     }
                 }
             }
@@ -925,8 +1156,11 @@ pub fn c20_library(run: &mut Run, tier: Tier) -> LibC20 {
     }
     let prev_hook = std::panic::take_hook();
     std::panic::set_hook(Box::new(|_| {}));
-    let outs = par_map(&jobs, |_, (cfg, pat)| {
-        let spec = ProbeSpec::interior(2);
+    let jobs: Vec<(Cfg, Vec<Option<f64>>, usize)> = jobs.into_iter().enumerate().map(|(i, (c, p))| (c, p, i)).collect();
+    let outs = par_map(&jobs, |_, (cfg, pat, ji)| {
+        // mostly interior starts; every seventh job starts outside the declared ranges, every
+        // eleventh has a parameter whose lower limit lies above the upper one
+        let spec = if ji % 11 == 5 { ProbeSpec::inverted(2) } else if ji % 7 == 3 { ProbeSpec::outside(2) } else { ProbeSpec::interior(2) };
         let alpha = Alphabet::standard(2).with_pattern(pat.clone());
         let len = cfg.steps as usize;
         let mut fails: Vec<(String, Value)> = vec![];
